@@ -442,7 +442,7 @@ func c04race(c *Ctx) {
 					for _, s := range sched {
 						switch {
 						case s == "R":
-							m += "l" // the release performs the insert
+							m += "ll" // the release performs the insert and the re-check
 						case s == "S":
 							m += "t" // Kill runs up to the hook after the table delete
 						case tsteps < 1:
@@ -450,7 +450,7 @@ func c04race(c *Ctx) {
 							tsteps++
 						}
 					}
-					lines = append(lines, "race 0 "+m)
+					lines = append(lines, "race g "+m)
 					ok := "doneOk"
 					if res.linkErr != nil {
 						ok = "doneErr"
